@@ -385,6 +385,12 @@ func checkTee(idx int, sp spec, srcClosable, sinkClosable bool, failAt int, mode
 			rec.Violation(idx, "tee/writer-bytes", "writer did not receive exactly the bytes up to its failure point", ctx())
 			return
 		}
+		// the consumer was handed exactly the bytes the writer accepted (both are prefixes of the source)
+		if len(got) != k.Len() {
+			rec.Violation(idx, "tee/consumer-bytes-differ-from-writer-bytes", fmt.Sprintf("the writer failed after accepting %d bytes but the consumer was handed %d bytes", k.Len(), len(got)), ctx())
+			return
+		}
+		rec.Count("tee.writer_failure_checked", 1)
 	}
 	tr.Close()
 	tr.Close()
@@ -449,7 +455,7 @@ func TestCheck(t *testing.T) {
 	rec = mon.Open("C16")
 	defer rec.Close()
 	rec.Note("rule", "LimitReadCloser: every limit N in 0..16 x source length 0..N+3 x every composition of the source into read chunks (all compositions for lengths up to the tier's bound, seeded compositions above; see exhaustive_lengths) x EOF-with-last-data/EOF-alone x zero-length reads (none/before first/between/before EOF) x injected source error at every chunk position (with and without data) x consumer = Read loop with every buffer size 1..N+2, io.ReadAll, io.Copy. MultiReaderCloser: 1-4 scripted sources (closable/plain, one possibly failing) x the same consumers (io.Copy takes WriteTo). TeeReadCloser: every composition x closable/plain source and writer x writer failing at every offset. A case is one (component, parameters, script, consumer) tuple; tuples are enumerated without repetition, so distinct = evaluated; non-trivial = the source has at least one byte or a terminal error other than a bare EOF. Larger seeded streams (up to 200 KiB) on top.")
-	rec.Note("require", []string{"limit.oversize_rejected", "limit.within_limit", "multi.ok.Read", "multi.ok.io.Copy", "multi.ok.ReadAll", "tee.ok", "limit.eof_with_n_plus_1th_byte"})
+	rec.Note("require", []string{"limit.oversize_rejected", "limit.within_limit", "multi.ok.Read", "multi.ok.io.Copy", "multi.ok.ReadAll", "tee.ok", "tee.writer_failure_checked", "limit.eof_with_n_plus_1th_byte"})
 	rec.Note("exhaustive_lengths", fmt.Sprintf("all compositions for source lengths 0..%d at every N (LimitReadCloser), 0..%d (TeeReadCloser)", mon.Pick(9, 15), mon.Pick(7, 11)))
 	gs := plan()
 	rec.Planned(len(gs))
